@@ -68,7 +68,11 @@
 //! assert_eq!(cat_colors.get(&"paganini"), Some(&"gray"));
 //! ```
 //!
+#[cfg(kani)]
+use crate::verif_map::{Entry, HashMap};
+#[cfg(not(kani))]
 use std::collections::hash_map::Entry;
+#[cfg(not(kani))]
 use std::collections::HashMap;
 use std::hash::Hash;
 
@@ -104,6 +108,7 @@ pub trait BackingContainer<K, V>: Default {
     }
 }
 
+#[cfg(not(kani))]
 impl<K: Eq + Hash + Clone, V> BackingContainer<K, V> for HashMap<K, V> {
     #[inline]
     fn insert(&mut self, k: K, v: V) {
@@ -217,7 +222,10 @@ pub struct GroupingContainer<K, V, T> {
             deserialize = "K: Eq + Hash + serde::Deserialize<'de>, V: serde::Deserialize<'de>"
         ))
     )]
+    #[cfg(not(kani))]
     groups: Vec<HashMap<K, EndOfGroupAction<V>>>,
+    #[cfg(kani)]
+    groups: crate::verif_map::Stack<HashMap<K, EndOfGroupAction<V>>>,
 }
 
 /// A grouping container based on the [HashMap] type.
